@@ -1807,6 +1807,30 @@ def g_c17(r, tier, env, Ls):
         ops += [["cpc", str(s), "7"], ["solve", "7", dt], ["solve", str(s), dt]]
         c = Case(hist_line(p, ops), dict(p), "hist-copy", oracle=oracle_copy_equal, tags=["integ=%d" % p["integ"], "kind=%d" % p["kind"], "ops=%d" % len(ops)])
         cs.append(c)
+    # "moved-to / copied States behave exactly like their sources did": the same problem solved on the State that
+    # received it directly, and on a State it reached through a chain of moves and copies (every flavour: construction /
+    # assignment, onto an empty slot, onto a live State of the same solver, onto a default-constructed or foreign State)
+    for gid in range(n // 2):
+        p = gen_solve_problem(r, env, Ls, stiff=r.chance(0.4))
+        p["perm"] = list(range(p["ns"]))
+        second_solver(r, env, p)
+        prob = problem_ops(r, p, 0)
+        setup, solve = prob[:-1], prob[-1]
+        base = [["new", "0"]] + setup + [solve]
+        cs.append(Case(hist_line(p, base), dict(p), "hist-direct", group=(("c17m", gid), grp_last_equal), tags=["moved_vs_direct"]))
+        for _ in range(2):
+            ops = [["new", "0"]] + setup
+            cur = 0
+            for q in range(r.rng(1, 3)):
+                nxt = cur + 1
+                how = r.pick(["mvc", "mva", "mva_live", "cpc", "cpa", "cpa0", "cpax"])
+                if how == "mva_live":
+                    ops += [["new", str(nxt)], ["mva", str(cur), str(nxt)]]
+                else:
+                    ops.append([how, str(cur), str(nxt)])
+                cur = nxt
+            ops.append([solve[0], str(cur)] + solve[2:])
+            cs.append(Case(hist_line(p, ops), dict(p), "hist-moved", group=(("c17m", gid), grp_last_equal), tags=["moved_vs_direct"]))
     return cs
 
 def oracle_copy_equal(c, out):
